@@ -617,6 +617,10 @@ def make_case(c):
     if e == "lin":
         return name, LinearEstimator(), para, (None, None), (None, None)
     if e == "plin":
+        # a non-default constructor option of the estimator: it has to survive every copy of the setting
+        order = c.get("order")
+        if order:
+            return name + f"[{order}]", ProjectedLinearEstimator(mode_proj_order=order), para, (None, None), (None, None)
         return name, ProjectedLinearEstimator(), para, (None, None), (None, None)
     flags = c.get("flags", "11")
     if flags == "none":
@@ -683,19 +687,20 @@ def flow_spec(t, rng, tier, shape="S1", noise="depolarized", light=False):
     else:
         raise ValueError(noise)
     pT = lambda: bool(rng.random() < 0.75)  # noqa: E731
+    pO = lambda: str(rng.choice(["eq_ineq", "ineq_eq", "ineq_eq"]))  # noqa: E731
     if t == "state":
         # slow case first: completion order != submission order under workers
-        cases = [{"est": "mle", "para": pT()}, {"est": "lin", "para": pT()}, {"est": "plin", "para": pT()}, {"est": "lsq", "para": pT()}]
+        cases = [{"est": "mle", "para": pT()}, {"est": "lin", "para": pT()}, {"est": "plin", "para": pT(), "order": pO()}, {"est": "lsq", "para": pT()}]
         num_data = [[100, 1000, 10000], [100, 500, 2000, 10000], [200, 2000, 20000]][int(rng.integers(0, 3))]
         if shape == "S3":
             cases = cases[1:]
     elif t == "povm":
-        cases = [{"est": "lsq", "para": pT()}, {"est": "lin", "para": pT()}, {"est": "plin", "para": pT()}]
+        cases = [{"est": "lsq", "para": pT()}, {"est": "lin", "para": pT()}, {"est": "plin", "para": pT(), "order": pO()}]
         if tier == "thorough" and not light and rng.random() < 0.25:
             cases.append({"est": "mle", "para": True})  # POVM max-likelihood is ~10x the cost of the other cases
         num_data = [[100, 1000], [100, 300, 1000], [500, 5000]][int(rng.integers(0, 3))]
     else:
-        cases = [{"est": "lsq", "para": True}, {"est": "lin", "para": pT()}, {"est": "plin", "para": pT()}]
+        cases = [{"est": "lsq", "para": True}, {"est": "lin", "para": pT()}, {"est": "plin", "para": pT(), "order": pO()}]
         num_data = [[100, 1000], [100, 300, 1000]][int(rng.integers(0, 2))]
     heavy = t in ("gate", "mprocess")
     n_rep = int(rng.integers(2, 4)) if heavy or light else int(rng.integers(2, 7))
@@ -983,10 +988,10 @@ def build_objects(spec):
 
 
 SINGLE_CASES = {
-    "state": [{"est": "lin"}, {"est": "plin"}, {"est": "mle"}, {"est": "lsq"}],
-    "povm": [{"est": "lin"}, {"est": "plin"}, {"est": "lsq"}],
-    "gate": [{"est": "lin"}, {"est": "plin"}, {"est": "lsq"}],
-    "mprocess": [{"est": "lin"}, {"est": "plin"}, {"est": "lin"}, {"est": "lsq"}],
+    "state": [{"est": "lin"}, {"est": "plin", "order": "ineq_eq"}, {"est": "mle"}, {"est": "lsq"}, {"est": "plin"}],
+    "povm": [{"est": "lin"}, {"est": "plin", "order": "ineq_eq"}, {"est": "lsq"}, {"est": "plin"}],
+    "gate": [{"est": "lin"}, {"est": "plin", "order": "ineq_eq"}, {"est": "lsq"}, {"est": "plin"}],
+    "mprocess": [{"est": "lin"}, {"est": "plin", "order": "ineq_eq"}, {"est": "lin"}, {"est": "lsq"}, {"est": "plin"}],
 }
 SEED_KINDS = ["int-arg", "int-setting", "generator-mt", "generator-pcg", "none", "int-arg"]
 
